@@ -30,7 +30,8 @@ const OPENERS: [&str; 22] = [
 
 const COMPLETED: [&str; 7] = [": bd 99 ;", "9 var bv", "#( 5 const BC #)", "77", "late blate", "[ 7 8 ] let [ bla blb ]", ": pw 1000 ;"];
 
-const FAILING: [&str; 24] = [
+const FAILING: [&str; 27] = [
+    "#( \"2 nosuchinjected\" ~)", "#( \"1 if\" \"then then\" ~)", "#( \"[ 1\" ~) 5 ] ]",
     "nosuchword", "2d", "0x", "\"unterminated", "|zz|", "\\( unterminated comment", "then", "]", "}", ";", "loop", "#)", "endcase", "until", "repeat", "endof", "^}", "else", "5 const KOUT", "#( 1 0 / #)", "#( nosuchinmeta #)", "#( 1 drop drop #)", "! nosuchvar", "endenum",
 ];
 
@@ -67,6 +68,22 @@ const PROBES: [&str; 16] = [
     "bw",
 ];
 
+/// the same submission through the file API (eval_file / compile_file + run)
+fn submit_file(xs: &mut Xstate, src: &str, compile_style: bool, path: &str) -> Result<Xresult, String> {
+    let _ = std::fs::write(path, src);
+    xs.set_insn_limit(Some(50_000)).unwrap();
+    guard(|| {
+        if compile_style {
+            match xs.compile_file(Xstr::from(path)) {
+                Ok(()) => xs.run(),
+                Err(e) => Err(e),
+            }
+        } else {
+            xs.eval_file(Xstr::from(path))
+        }
+    })
+}
+
 fn submit(xs: &mut Xstate, src: &str, compile_style: bool) -> Result<Xresult, String> {
     // a fresh instruction budget per submission (an exhausted budget is C14's subject, not an after-effect)
     xs.set_insn_limit(Some(50_000)).unwrap();
@@ -97,7 +114,7 @@ pub fn case(ch: &mut Choices, ctx: &CaseCtx) -> CaseOut {
     let compile_style = ch.bool();
     let family2 = ch.chance(1, 4);
     // 1 case in 6 works with a real file pulled in by require / include (needs the real words, not the stubs)
-    let with_file = !family2 && ch.chance(1, 6);
+    let with_file = ch.chance(1, 5);
     let mut a = if with_file {
         let mut x = Xstate::boot().expect("boot");
         x.intercept_stdout(true);
@@ -110,6 +127,7 @@ pub fn case(ch: &mut Choices, ctx: &CaseCtx) -> CaseOut {
     if with_file {
         let _ = std::fs::create_dir_all(format!("{}/.run/c10-{}", verif_root(), std::process::id()));
         let _ = std::fs::write(&file_path, ": fromfile 41 ;\n7 var filevar\n");
+        let _ = std::fs::write(file_path.replace("lib.xeh", "bad.xeh"), "1 nosuchinfile 2\n: fromfile 666 ;\n");
     }
     let mut log: Vec<String> = vec![format!("style: {}", if compile_style { "compile+run" } else { "eval" })];
     // ---- pre ------------------------------------------------------------------------------
@@ -156,7 +174,12 @@ pub fn case(ch: &mut Choices, ctx: &CaseCtx) -> CaseOut {
                 parts.push(["1 2 +", "7", "\"t\""][ch.below(3)].to_string());
             }
         }
-        parts.push(FAILING[ch.below(FAILING.len())].to_string());
+        if with_file && ch.chance(1, 3) {
+            // the failing token lies inside a file the source pulls in; the source's own text continues after it
+            parts.push(format!("include {}", xs::str_lit(&file_path.replace("lib.xeh", "bad.xeh"))));
+        } else {
+            parts.push(FAILING[ch.below(FAILING.len())].to_string());
+        }
         let t = TRAILING[ch.below(TRAILING.len())];
         let sep = [" ", "\n", "  "][ch.below(3)];
         let mut text = parts.join(sep);
@@ -257,7 +280,17 @@ pub fn case(ch: &mut Choices, ctx: &CaseCtx) -> CaseOut {
             probe_defines_or_inspects = true;
         }
         let (da, db) = (a.data_depth(), b.data_depth());
-        let (ra, rb) = match (submit(&mut a, p, compile_style), submit(&mut b, p, compile_style)) {
+        let via_file = with_file && !p.contains("require") && ch.chance(1, 2);
+        if via_file {
+            log.push("  (submitted through a file)".to_string());
+        }
+        let probe_path = file_path.replace("lib.xeh", "probe.xeh");
+        let results = if via_file {
+            (submit_file(&mut a, p, compile_style, &probe_path), submit_file(&mut b, p, compile_style, &probe_path))
+        } else {
+            (submit(&mut a, p, compile_style), submit(&mut b, p, compile_style))
+        };
+        let (ra, rb) = match results {
             (Ok(x), Ok(y)) => (x, y),
             (Err(pm), _) | (_, Err(pm)) => {
                 out.fail(format!("panic: {}", pm), log.join("\n"));
